@@ -149,6 +149,8 @@ def specs(tier):
     add("sort rows by row_percent, fixed bottom, empty rows possible (NaN sort keys)", "slice_tr", dict(
         rows=("cat", "a", 3, {"missing_at": (1,)}), cols=("cat", "b", 2, {"missing_at": (0,)}), strict=False, transforms={
             "rows_dimension": {"order": {"type": "opposing_element", "element_id": 1, "measure": "row_percent", "direction": "descending", "fixed": {"bottom": [2]}}}}), max_paths=1500)
+    add("sort rows by opposing element, fixed lists with repeats and an id in both lists", "slice_tr", dict(transforms={
+        "rows_dimension": {"order": {"type": "opposing_element", "element_id": 1, "measure": "count_weighted", "direction": "descending", "fixed": {"top": [3, 3], "bottom": [1, 3, 1]}}}}), max_paths=600)
     add("sort rows by marginal asc + hide column", "slice_tr", dict(transforms={
         "rows_dimension": {"order": {"type": "marginal", "marginal": "weighted_base", "direction": "ascending", "fixed": {"top": [3]}}},
         "columns_dimension": {"elements": {"1": {"hide": True}}}}), max_paths=600)
